@@ -138,8 +138,10 @@ class ParsingFrontend(Serialize):
 
     def parse(self, text: Optional[LarkInput], start=None, on_error=None):
         if self.lexer_conf.lexer_type in ("dynamic", "dynamic_complete"):
-            if isinstance(text, TextSlice) and not text.is_complete_text():
-                raise TypeError(f"Lexer {self.lexer_conf.lexer_type} does not support text slices.")
+            if isinstance(text, TextSlice):
+                if not text.is_complete_text():
+                    raise TypeError(f"Lexer {self.lexer_conf.lexer_type} does not support text slices.")
+                text = text.text    # The dynamic lexers scan the text itself
 
         chosen_start = self._verify_start(start)
         kw = {} if on_error is None else {'on_error': on_error}
